@@ -167,13 +167,7 @@ Proof. destruct s; [reflexivity|discriminate]. Qed.
 
 (* the text of a number has no outer white space *)
 Lemma digit_not_space c : is_digit c = true -> is_space c = false.
-Proof.
-  unfold is_digit, is_space. intros H. apply andb_prop in H. destruct H as [H1 H2].
-  apply Nat.leb_le in H1. apply Nat.leb_le in H2.
-  destruct (9 <=? nat_of_ascii c)%nat eqn:A, (nat_of_ascii c <=? 13)%nat eqn:B,
-           (28 <=? nat_of_ascii c)%nat eqn:C, (nat_of_ascii c <=? 32)%nat eqn:D; simpl; try reflexivity;
-    try apply Nat.leb_le in B; try apply Nat.leb_le in D; lia.
-Qed.
+Proof. destruct c as [[] [] [] [] [] [] [] []]; try reflexivity; discriminate. Qed.
 
 Lemma rtrimmed_digits p s : s <> "" -> all_by is_digit s = true -> rtrimmed is_space (p ++ s) = true.
 Proof.
